@@ -52,7 +52,7 @@ Shapes == Cascade \cup Stepwise \cup {"S6"} \cup Gens
 Final(c, m) == IF c.shape = "S1E" \/ c.kind = "err" THEN <<"err", 1>> ELSE <<"ok", m + 1>>
 P(c) == IF c.extra \in {"pre", "both"} THEN 1 ELSE 0      \* callbacks before the link
 Q(c) == IF c.extra \in {"post", "both"} THEN 1 ELSE 0     \* callbacks added after being returned
-Total(c, m) == IF c.shape \in Cascade \cup Stepwise THEN m * (P(c) + 2) + Q(c) * (m - 1) ELSE m
+Total(c, m) == IF c.shape \in Cascade \cup Stepwise THEN m * (P(c) + 2) + Q(c) * (IF m > 0 THEN m - 1 ELSE 0) ELSE m
 FireVal(c, i) == IF c.shape = "S1E" THEN <<"err", 2>> ELSE <<"ok", i>>
 PyNone == <<"none", 0>>
 
@@ -64,7 +64,7 @@ Exp(c, m, j) ==
                d == m * w
            IN IF j <= d THEN
                 LET i == (j - 1) \div w + 1
-                    r == (j - 1) % w + 1
+                    r == ((j - 1) % w) + 1
                 IN IF P(c) = 1 /\ r = 1 THEN <<"pre", i, FireVal(c, i)>> ELSE <<"link", i, FireVal(c, i)>>
               ELSE IF j = d + 1 THEN <<"own", m, Final(c, m)>>
               ELSE IF j <= d + m THEN <<"res", m - (j - d) + 1, Final(c, m)>>
@@ -74,7 +74,7 @@ Exp(c, m, j) ==
            LET w1 == P(c) + 2
                w  == P(c) + 2 + Q(c)
                s  == IF j <= w1 THEN 1 ELSE 2 + (j - w1 - 1) \div w
-               r  == IF j <= w1 THEN j ELSE (j - w1 - 1) % w + 1
+               r  == IF j <= w1 THEN j ELSE ((j - w1 - 1) % w) + 1
                i  == m - s + 1
            IN IF P(c) = 1 /\ r = 1 THEN <<"pre", i, <<"ok", i>> >>
               ELSE IF r = P(c) + 1 THEN <<"link", i, <<"ok", i>> >>
